@@ -107,6 +107,7 @@ func historyCase(h int) kase {
 }
 
 func run(c *core.Ctx) {
+	runChannelBatches(c)
 	defer runtime.GOMAXPROCS(runtime.NumCPU())
 	// fewer collections: they only cost time here (every buffer is garbage
 	// within one history) and each one may empty the pools under test
